@@ -631,7 +631,7 @@ static long c08_maxlen() { return 3 * (long)build_hash_refill_bytes() + 70; }
 static long plan_C08(const std::string &tier) {
   if (build_chunk_bytes() >= (1u << 20)) return tier == "quick" ? 0 : 3;
   long per = (c08_maxlen() + 1) * 4 * 3;       // lengths x offsets x hashes
-  return tier == "quick" ? per + 2000 + 600 : per * 10 + 100000 + 30000;
+  return tier == "quick" ? per + 2000 + 600 : per * 40 + 400000 + 120000;
 }
 
 static void gen_C08(const std::string &tier, uint64_t seed, long idx, Scn &s) {
@@ -643,7 +643,7 @@ static void gen_C08(const std::string &tier, uint64_t seed, long idx, Scn &s) {
     return;
   }
   long per = (c08_maxlen() + 1) * 4 * 3;
-  long reps = tier == "quick" ? 1 : 10;
+  long reps = tier == "quick" ? 1 : 40;
   if (idx < per * reps) {
     long k = idx % per;
     s.i["mode"] = 1;
@@ -655,7 +655,7 @@ static void gen_C08(const std::string &tier, uint64_t seed, long idx, Scn &s) {
     return;
   }
   idx -= per * reps;
-  long nfile = tier == "quick" ? 2000 : 100000;
+  long nfile = tier == "quick" ? 2000 : 400000;
   if (idx < nfile) { // (a) tag of a simulated encryption; lengths chosen to sweep (20T + body) mod 64
     s.i["mode"] = 0;
     int T = 1 + (int)g.below(4);
